@@ -22,11 +22,11 @@ Lemma combine_map_r {A B C} (f:B -> C) : forall (a:list A) (b:list B),
 Proof. induction a as [|x a IH]; intros [|y b]; cbn [combine map]; try reflexivity. rewrite IH. reflexivity. Qed.
 
 Lemma rs_add_is_col_step st pay :
-  rs_add st (rs_decode pay) = map (fun x => (fst x + Byte.to_N (snd x))%N) (combine st pay).
+  rs_add st (rs_decode pay) = map (fun x => (fst x + rs_dec (snd x))%N) (combine st pay).
 Proof. unfold rs_add, rs_decode. rewrite combine_map_r, map_map. reflexivity. Qed.
 
 Lemma col_sums_snoc p g pay :
-  col_sums p (g ++ [pay]) = map (fun x => (fst x + Byte.to_N (snd x))%N) (combine (col_sums p g) pay).
+  col_sums p (g ++ [pay]) = map (fun x => (fst x + rs_dec (snd x))%N) (combine (col_sums p g) pay).
 Proof. unfold col_sums. rewrite fold_left_app. reflexivity. Qed.
 
 (* buckets *)
